@@ -105,6 +105,15 @@ pub fn eval_level(layout: &DocTruth, dir: &DirTruth, now: (i64, u32), id: &str, 
     }
     let table: BTreeSet<String> = signed["keys"].as_object().map(|m| m.keys().cloned().collect()).unwrap_or_default();
     let empty = vec![];
+    // (two entries under one step name: every entry is a step of its own for C02 / C07; what "the first"
+    // and "the last" step's link is for the summary is left open)
+    {
+        let names: Vec<&str> = signed["steps"].as_array().unwrap_or(&empty).iter().filter_map(|s| s["name"].as_str()).collect();
+        let uniq: BTreeSet<&str> = names.iter().copied().collect();
+        if uniq.len() != names.len() {
+            ev.out_of_scope = true;
+        }
+    }
     for st in signed["steps"].as_array().unwrap_or(&empty) {
         let name = st["name"].as_str().unwrap_or("").to_string();
         let threshold = st["threshold"].as_u64().unwrap_or(0);
